@@ -718,6 +718,11 @@ impl<N, const K: usize> Tree<N, K> {
             }));
         }
 
+        // check the slot before anything is modified: an error must leave the tree unchanged
+        if self.arena[parent].children[label].is_some() {
+            return Err(NodeError::ChildExists { parent, label });
+        }
+
         let childnode = TreeNode::new(value, Some(parent));
         let node_idx = self.arena.insert(childnode);
 
@@ -725,13 +730,8 @@ impl<N, const K: usize> Tree<N, K> {
             "invalid state: tree node should be available when index is contained in arena",
         );
         parent_node.isleaf = false;
-
-        if parent_node.children[label].is_some() {
-            Err(NodeError::ChildExists { parent, label })
-        } else {
-            parent_node.children[label] = Some(node_idx);
-            Ok(node_idx)
-        }
+        parent_node.children[label] = Some(node_idx);
+        Ok(node_idx)
     }
 
     /// Tries to remove the node uniquely specified as the child of ``parent``
